@@ -252,6 +252,7 @@ func registerModels(e *Engine) {
 	registerCryptoModels(e)
 	registerTimeModels(e)
 	registerSyncModels(e)
+	registerXMLHookModels(e)
 	registerStringModels(e)
 }
 
